@@ -1,11 +1,13 @@
 (* C18 — equal values hash equally and equality is an equivalence.
    Versions: equality is equality of the compare key, which is also what is hashed (C03); equal versions are
    interchangeable as constraints and as probes.  String-constraint clauses: == is an equivalence and implies the same
-   (operator, value) pair (the hashed tuple) and the same admitted values.  Ranges, unions, markers, dependencies and
+   (operator, value) pair (the hashed tuple) and the same admitted values.  Version ranges and unions: == (as VersionRange.__eq__,
+   Version.__eq__ and VersionUnion.__eq__ compute it) is an equivalence on constraints whose members are well-formed and proper, and
+   equal constraints admit the same versions - every candidate (Proofs/EqCompound.v).  Markers, dependencies and
    specifications are judged on the implementation (all pairs and triples of the spelling pools). *)
 From Coq Require Import List Bool NArith String.
 From PC Require Import Base.Cmp Model.Pep440 Spec.Pep440Spec Proofs.Pep440Order Model.VConstraint Proofs.RangeSpec
-     Model.Generic Proofs.EqProofs.
+     Model.Generic Proofs.EqProofs Base.Result Model.Marker Model.MarkerAlg Proofs.RangeOps Proofs.UnionHull Proofs.UnionExact Proofs.EqCompound.
 Import ListNotations.
 
 Theorem C18_version_equivalence :
@@ -30,3 +32,29 @@ Theorem C18_clause_equivalence :
   (forall a b x, atom_eqb a b = true -> atom_sat a x = atom_sat b x /\ (av a, aop a) = (av b, aop b)).
 Proof. exact (conj atom_eq_refl (conj atom_eq_sym (conj atom_eq_trans atom_eq_interchangeable))). Qed.
 Print Assumptions C18_clause_equivalence.
+
+(* compound version constraints: [vc_eqb] is == between EmptyConstraint, Version, VersionRange and VersionUnion objects (the model runs
+   it against the implementation on the spelling pools, command ceq); [wpc c]: every member of c has well-formed bounds and is proper
+   (lower bound below upper bound) - implied by [goodc], which every constraint parsed from text without local labels satisfies
+   and which union / intersect / difference preserve (C05). *)
+Theorem C18_constraint_equivalence :
+  (forall c, vc_eqb c c = true) /\
+  (forall a b, wpc a = true -> wpc b = true -> vc_eqb a b = vc_eqb b a) /\
+  (forall a b c, wpc a = true -> wpc b = true -> wpc c = true -> vc_eqb a b = true -> vc_eqb b c = true -> vc_eqb a c = true).
+Proof. exact (conj vc_eqb_refl (conj vc_eqb_sym vc_eqb_trans)). Qed.
+Print Assumptions C18_constraint_equivalence.
+Theorem C18_constraint_interchangeable : forall a b x, wpc a = true -> wpc b = true -> vc_eqb a b = true -> sem a x = sem b x.
+Proof. exact vc_eqb_interchangeable. Qed.
+Print Assumptions C18_constraint_interchangeable.
+Theorem C18_good_constraints_qualify : forall c, goodc c = true -> wpc c = true.
+Proof. exact goodc_wpc. Qed.
+Print Assumptions C18_good_constraints_qualify.
+Example C18_constraint_example :
+  exists a b, parse_constraint_text false false ">=1.0,<2.0 || 3.0" = Ok a /\ parse_constraint_text false false ">=1,<2.0.0 || 3" = Ok b /\
+    goodc a = true /\ goodc b = true /\ vc_eqb a b = true /\ a <> b.
+Proof. do 2 eexists. repeat split; try (vm_compute; reflexivity). vm_compute. discriminate. Qed.
+(* without properness == is not symmetric: the point 1.0 equals the improper range [1.0, 1.0) but not conversely; no parser or
+   operation builds such a range from good operands (C05: results are good) *)
+Example C18_improper_range_asymmetric :
+  exists x, parse "1.0" = Some x /\ rng_eqb (RV x) (RR (Some x) (Some x) true false) = true /\ rng_eqb (RR (Some x) (Some x) true false) (RV x) = false.
+Proof. eexists. repeat split; vm_compute; reflexivity. Qed.
